@@ -456,6 +456,8 @@ def run(ctx):
         kitp, pf = run_prefixes(ctx, res, k, modes=modes, depth=depth)
         triage_failures(ctx, res, kitp, pf)
     run_lexer(ctx, res)
+    from . import c12_escape
+    c12_escape.run_validate(ctx, res, "C01")
     res.exhaustive = not res.inconclusive
     res.stubs += ["Vec/slice/Option/Result/iterators/Cell/mem::replace (vf/models.py)", "format!/fmt::Arguments opaque",
                   "ra_ap_limit::Limit::check", "drop_bomb::DropBomb (panics on drop unless defused)"]
